@@ -1340,12 +1340,9 @@ class EscB(B):
         if o == 3:
             return sa.bindparam(None, 4 if is_int else "u")
         if o == 4:
-            if self.pinned:
-                self.k("literal_execute_escaped")
-                return self.ebind(5 if is_int else "le", literal_execute=True)
-            if self.ctx is not None:
-                self.ctx.exclude("literal_execute=True bindparam with a name needing escaping + render_postcompile: KeyError (known finding, also C04/literal-execute-escaped-name)")
-            return self.ebind(5 if is_int else "le")
+            # repaired in /repo (ef607b7): generated again
+            self.k("literal_execute_escaped")
+            return self.ebind(5 if is_int else "le", literal_execute=True)
         return sa.null()
 
     def ecrit(self):
